@@ -52,7 +52,10 @@ def do_case(ctx, inp):
              | ({"own-variable-fixed-after-construction"} if inp.get("fix_self") is not None else set()))
     # propositions: pickled whole
     s = o.to_b64()
-    o2 = pg.from_b64(s)
+    try:
+        o2 = pg.from_b64(s)
+    except Exception as e:
+        ctx.fail("from_b64-raised-on-own-to_b64-output", {"exception": f"{type(e).__name__}: {str(e)[:200]}", "model": t}); return
     if type(o2) is not type(o) or snap(o2) != t or o2.to_text() != o.to_text():
         ctx.fail("proposition-round-trip-differs", {"before": t, "after": snap(o2)}); return
     if o2.to_b64() != s:
@@ -77,7 +80,10 @@ def do_case(ctx, inp):
     except Exception as e:
         ctx.fail("payload-fields-in-wrong-order-or-shape", {"exception": f"{type(e).__name__}: {e}"}); return
     ctx.op({"op": "pack", **fs}, {"payload": got})
-    g2 = pnd.ge_polyhedron_config.from_b64(g.to_b64())
+    try:
+        g2 = pnd.ge_polyhedron_config.from_b64(g.to_b64())
+    except Exception as e:
+        ctx.fail("from_b64-raised-on-own-to_b64-output", {"exception": f"{type(e).__name__}: {str(e)[:200]}", "polyhedron": full_poly_snap(g)}); return
     if type(g2) is not type(g) or full_poly_snap(g2) != fs:
         ctx.fail("polyhedron-round-trip-differs", {"before": fs, "after": full_poly_snap(g2)}); return
     # every unpacking is a fresh object: editing one in place must not show in the next unpacking of the same string
